@@ -514,7 +514,9 @@ func (d *DirectTransmission) sendBatch(wholeBatch []*types.Event) {
 						sleepDur = d.Clock.Until(t)
 					}
 				}
-				if sleepDur > 0 && sleepDur < 60*time.Second {
+				// Only wait out Retry-After when another attempt follows; after the
+				// last attempt report the failure right away (and keep the body readable).
+				if try == 0 && sleepDur > 0 && sleepDur < 60*time.Second {
 					resp.Body.Close()
 					d.Clock.Sleep(sleepDur)
 					continue // retry in the loop
